@@ -32,6 +32,9 @@ POOL = [
     ("s0", "\"\"", "s0"),
     ("sabc", "\"abc\"", "s"),
     ("suni", "\"héλ✓\"", "s"),
+    ("sa", "\"a\"", "s"),
+    ("sd7ff", "\"\\u{d7ff}\"", "s"),      # single characters either side of the surrogate gap
+    ("se000", "\"\\u{e000}\"", "s"),
     ("l0", "[]", "l0"),
     ("l123", "[1,2,3]", "l"),
     ("lnest", "[[1,2],[3,[4]]]", "l"),
@@ -85,7 +88,7 @@ def run_cases(cases, timeout_ms=2000, jobs=None, chunk=3000):
                            stdout=subprocess.PIPE, stderr=subprocess.PIPE, text=True, preexec_fn=limit)
         if p.returncode != 0:
             nv.tool_fail("harness run failed: " + p.stderr[-2000:])
-        for line in p.stdout.splitlines():
+        for line in p.stdout.split("\n"):
             if line.strip():
                 r = json.loads(line)
                 out[r["id"]] = r["steps"]
